@@ -360,9 +360,15 @@ func pruneToVerifyIncrementalEnd.traverse
 // UNVERIFIED as yet: stated here so that balloon-level properties are proved
 // modularly against them; each clause is an assumption until its check exists.
 
+immutable HistoryTree.hasherF, HistoryTree.hasher, HistoryTree.writeCache, HistoryTree.readCache, HistoryTree.log by NewHistoryTreeWithLogger, HistoryTree.Close
+// a tree that has not been closed
+define HistLive(t) = t != nil && !isnil(t.hasher) && !isnil(t.writeCache)
+
+// (the explicit panic of the inserting visitor on a missing cache entry - a store that lost a
+// frozen node - is by design)
 func HistoryTree.Add
   props C04
-  requires !isnil(t.hasher) && !isnil(t.writeCache)
+  requires HistLive(t)
   may_panic
   modifies cachePuts
   ensures isnil(result_2)
